@@ -1055,7 +1055,7 @@ pub struct GlobalData {
     pub environment: HashMap<String, DataArc>,
 
     /// Stores any delayed send (with a "sendid"), Key: sendid
-    pub delayed_send: HashMap<String, Guard>,
+    pub delayed_send: HashMap<String, Vec<(u32, Guard)>>,
     pub io_processors: HashMap<String, Arc<Mutex<Box<dyn EventIOProcessor>>>>,
 
     pub data: DataStore,
